@@ -1,1 +1,57 @@
-From Verif Require Import Present.
+(* C12 - Deserializing a slice equals slicing the deserialized values.
+   slice_arr (De/Reader.v) is the layout of an Arrow slice converted to a view (values / offsets /
+   descriptor windows, validity bit offsets, fixed-size children sliced by n, struct children
+   sliced, dictionary keys sliced, union type ids and offsets windowed; list, map and union
+   children untouched); the harness compares it with arrow-rs slices on every run. *)
+From Verif Require Import Reader Reader_proofs.
+
+Definition C12_full : Prop :=
+  forall a o l i, construct a = true -> lens_ok a = true -> o + l <= arr_len a ->
+    read_top (slice_arr a o l) i = (if Nat.ltb i l then read_top a (o + i) else Ok None).
+
+(* row i of the window [o, o+l) reads exactly as row o+i of the whole array: every data type of the
+   dispatcher, any nesting, windows starting inside a bitmap byte *)
+Theorem C12_slice : forall a o l i, lens_ok a = true -> o + l <= arr_len a -> i < l ->
+  read (slice_arr a o l) i = read a (o + i).
+Proof. exact read_slice. Qed.
+
+Theorem C12_slice_items : forall a o l i, construct a = true -> lens_ok a = true -> o + l <= arr_len a -> i < l ->
+  read_top (slice_arr a o l) i = read_top a (o + i).
+Proof. exact read_top_slice. Qed.
+
+Theorem C12_slice_len : forall a o l, lens_ok a = true -> o + l <= arr_len a -> arr_len (slice_arr a o l) = l.
+Proof. exact arr_len_slice. Qed.
+
+Theorem C12_slice_end : forall a o l i, construct a = true -> lens_ok a = true -> o + l <= arr_len a -> l <= i ->
+  read_top (slice_arr a o l) i = Ok None.
+Proof. exact read_top_slice_end. Qed.
+
+Theorem C12_full_proved : C12_full.
+Proof.
+  intros a o l i Hc Hok Hol. destruct (Nat.ltb_spec i l).
+  - apply read_top_slice; assumption.
+  - apply read_top_slice_end; assumption.
+Qed.
+
+Theorem C12_slice_of_slice : forall a o l o2 l2 i, lens_ok a = true -> o + l <= arr_len a -> o2 + l2 <= l -> i < l2 ->
+  read (slice_arr (slice_arr a o l) o2 l2) i = read a (o + o2 + i).
+Proof. exact read_slice_of_slice. Qed.
+
+(* the hypothesis lens_ok is met by every well-formed array (reader's notion, strict = false) *)
+Theorem C12_wf_lens_ok : forall a strict f, wf_arr strict f a = true -> lens_ok a = true.
+Proof. exact wf_lens_ok. Qed.
+
+(* non-vacuity: a nullable struct of (list of nullable int32, utf8) with a validity bitmap at bit offset 3 *)
+Example C12_example :
+  let a := AStruct 4 (Some {| bm_off := 3; bm_data := [107]%N |})
+             [({| m_name := b "l"; m_nullable := true |},
+               AList KList (Some {| bm_off := 0; bm_data := [13]%N |}) [0; 2; 2; 3; 5]%Z {| m_name := b "element"; m_nullable := true |}
+                     (APrim (PInt I32) (Some {| bm_off := 1; bm_data := [42]%N |}) [1; 2; 3; 4; 5]%Z));
+              ({| m_name := b "s"; m_nullable := false |}, ABytes BUtf8 None [0; 1; 1; 3; 4]%Z (b "abcd"))] in
+  construct a = true /\ lens_ok a = true /\
+  map (read_top (slice_arr a 1 2)) [0; 1; 2] = [read_top a 1; read_top a 2; Ok None] /\
+  read_top a 2 = Ok (Some (RMap [(RStr (b "l"), RSeq [RInt 3]); (RStr (b "s"), RStr (b "bc"))])).
+Proof. vm_compute. repeat split; reflexivity. Qed.
+
+Print Assumptions C12_full_proved.
+Print Assumptions C12_slice_of_slice.
